@@ -35,7 +35,7 @@ type op struct {
 	Form    int            `json:"form,omitempty"` // which caller form of a circular window
 	Data    string         `json:"data,omitempty"` // append, setfeat
 	Qual    []byte         `json:"qual,omitempty"` // append, setqual
-	Mode    int            `json:"mode,omitempty"` // append: Write / WriteString / WriteByte
+	Mode    int            `json:"mode,omitempty"` // append: Write / WriteString / WriteByte; setseq: SetSequence / Clear+Grow+Write
 	Key     string         `json:"key,omitempty"`  // setattr, delattr, nested
 	Val     any            `json:"val,omitempty"`
 	Mism    map[string]int `json:"mism,omitempty"`  // setmism
@@ -330,7 +330,14 @@ func modelBody(c modelCase) error {
 			live = append(live, &object{r, x.v.window(start, length), fmt.Sprintf("Subsequence(%d,%d,%v) of #%d by op %d", from, to, o.Circ, pos(x), idx)})
 		case "setseq":
 			n := len(o.Obj.Seq)
-			x.real.SetSequence([]byte(o.Obj.Seq))
+			rewrite := o.Mode%2 != 0 // Clear + Grow + Write into the object's own buffer instead of SetSequence
+			if rewrite {
+				x.real.Clear()
+				x.real.Grow(n)
+				x.real.Write([]byte(o.Obj.Seq))
+			} else {
+				x.real.SetSequence([]byte(o.Obj.Seq))
+			}
 			x.v.Seq = ref.LowerASCII(o.Obj.Seq)
 			if x.v.Qual != nil {
 				q := o.Obj.Qual
@@ -338,7 +345,12 @@ func modelBody(c modelCase) error {
 					q = []byte{20}
 				}
 				q = fitQual(q, n)
-				x.real.SetQualities(append([]byte(nil), q...))
+				if rewrite {
+					x.real.ClearQualities()
+					x.real.WriteQualities(append([]byte(nil), q...))
+				} else {
+					x.real.SetQualities(append([]byte(nil), q...))
+				}
 				x.v.Qual = q
 			}
 			if len(o.Obj.Mism) > 0 {
@@ -565,7 +577,7 @@ func genModel(t *rapid.T, maxOps int) (modelCase, *tracker) {
 			if s.hasQ {
 				q = 1
 			}
-			return op{K: "setseq", I: i, Obj: genSpec(t, genLen(t, "n"), q)}
+			return op{K: "setseq", I: i, Obj: genSpec(t, genLen(t, "n"), q), Mode: rapid.IntRange(0, 1).Draw(t, "rewrite")}
 		case 1:
 			d := genSeq(t, "data", rapid.IntRange(1, 12).Draw(t, "dlen"))
 			return op{K: "append", I: i, Data: d, Qual: gen.Quals(t, "aq", len(d), 1, 93), Mode: rapid.IntRange(0, 2).Draw(t, "mode")}
@@ -625,7 +637,7 @@ func genModel(t *rapid.T, maxOps int) (modelCase, *tracker) {
 				if s.hasQ {
 					q = 1
 				}
-				o = op{K: "setseq", I: i, Obj: genSpec(t, genLen(t, "n"), q)}
+				o = op{K: "setseq", I: i, Obj: genSpec(t, genLen(t, "n"), q), Mode: rapid.IntRange(0, 1).Draw(t, "rewrite")}
 			case "append":
 				d := genSeq(t, "data", rapid.IntRange(1, 12).Draw(t, "dlen"))
 				o = op{K: "append", I: i, Data: d, Qual: gen.Quals(t, "aq", len(d), 1, 93), Mode: rapid.IntRange(0, 2).Draw(t, "mode")}
